@@ -113,6 +113,11 @@ def ref_is_target(view, is_gt, params):
         if thr is not None:
             margin = min(margin, abs(view["conf"] - thr))
             ok = ok and view["conf"] > thr
+    if view["x"] is None:
+        # an image object: no ego-relative position exists, so no range or point-count criterion applies to it
+        if is_gt and params.get("target_uuids") is not None:
+            ok = ok and view["uuid"] in params["target_uuids"]
+        return ok, margin
     if params.get("max_x") is not None:
         b = bound(params["max_x"])
         margin = min(margin, abs(abs(view["x"]) - b) / max(1.0, abs(b)))
@@ -146,6 +151,29 @@ def ref_in_region(view, is_gt, params):
             # label not targeted: not decided by the region clause
             return True, math.inf
     return ref_is_target(view, is_gt, p)
+
+
+# ------------------------------------------------------------------------------------------------------
+# image ROIs (x, y, w, h in whole pixels)
+# ------------------------------------------------------------------------------------------------------
+
+ROI_CENTER_SLACK = 0.75  # the centre of a ROI with an odd side is a half pixel: distances are known to about 0.71 px
+
+
+def roi_center_distance(a, b):
+    """Distance between the centres of two ROIs, centres taken at whole pixels (x + w // 2, y + h // 2)."""
+    ax, ay = a[0] + a[2] // 2, a[1] + a[3] // 2
+    bx, by = b[0] + b[2] // 2, b[1] + b[3] // 2
+    return math.hypot(ax - bx, ay - by)
+
+
+def roi_iou(a, b):
+    """Intersection over union of two axis-aligned ROIs."""
+    iw = min(a[0] + a[2], b[0] + b[2]) - max(a[0], b[0])
+    ih = min(a[1] + a[3], b[1] + b[3]) - max(a[1], b[1])
+    inter = max(0, iw) * max(0, ih)
+    union = a[2] * a[3] + b[2] * b[3] - inter
+    return inter / union if union > 0 else 0.0
 
 
 # ------------------------------------------------------------------------------------------------------
